@@ -112,7 +112,7 @@ Event(e) ==
       [] e.k = "wipe"    -> Wipe
       [] e.k = "kv"      -> SetKV(e.i, e.ok)
       [] e.k = "crash"   -> /\ e.fstate # "bad" /\ StrictlySorted(e.file)
-                            /\ IF L[e.i].phase = "dead" THEN UNCHANGED vars
+                            /\ IF L[e.i].phase \in {"dead", "off"} THEN UNCHANGED vars   \* died after its last step
                                ELSE Crash(e.i) \/ \E F \in MidFiles(e.i) : CrashMid(e.i, F)
                             /\ file'[e.i] = SetOf(e.file)
       [] e.k = "sample"  -> SampleOK(e) /\ UNCHANGED vars
@@ -129,6 +129,12 @@ Silent  == /\ idx < NEv /\ \E i \in Inst : SilentStep(i) /\ UNCHANGED idx
 
 TNext == Consume \/ Silent
 TSpec == TInit /\ [][TNext]_tvars
+
+TPos  == 0..15
+TBud  == [start |-> 1000000, ext |-> 1000000, stop |-> 1000000, ready |-> 1000000, wipe |-> 1000000,
+          kv |-> 1000000, crash |-> 1000000, envBy |-> 1000000]
+TCfgs == {DefaultCfg}
+TCfg0 == {[j \in 1..N |-> DefaultCfg]}
 
 ASSUME TLCSet(1, 0)
 \* accepted iff some execution of the specification consumes every event
